@@ -1539,6 +1539,18 @@ impl RaftNode {
         Ok(())
     }
 
+    /// Persist the removal of every log entry from `from_index` on.
+    fn persist_log_truncate(&self, from_index: u64) -> Result<()> {
+        use crate::raft_wal::RaftWalEntry;
+
+        if let Some(ref wal) = self.wal {
+            wal.lock()
+                .append(&RaftWalEntry::LogTruncate { from_index })
+                .map_err(|e| ChainError::StorageError(format!("WAL log persist failed: {e}")))?;
+        }
+        Ok(())
+    }
+
     fn is_peer_healthy(&self, peer_id: &NodeId) -> bool {
         self.membership
             .as_ref()
@@ -3427,6 +3439,14 @@ impl RaftNode {
         if needs_term_update {
             // CRITICAL: Persist term change to WAL BEFORE updating memory
             self.persist_term_and_vote(metadata.last_included_term, None)?;
+        }
+
+        // The installed entries replace the log in the WAL before they replace it in
+        // memory: a restart rebuilds the log from the WAL alone, and entries that were
+        // only in memory would be gone while the commit index already covers them.
+        self.persist_log_truncate(1)?;
+        for entry in &entries {
+            self.persist_log_entry(entry)?;
         }
 
         // Install the snapshot
